@@ -321,6 +321,8 @@ func (g *G) classes() []genClass {
 		return []genClass{{5, vary}, {3, grid}, {2, inval}}
 	case "C19":
 		return []genClass{{3, vary}, {1, inval}, {2, func(g *G, id string) *History { return g.genRepeat(id) }}}
+	case "C16":
+		return []genClass{{8, func(g *G, id string) *History { return g.genConcurrent(id) }}, {2, func(g *G, id string) *History { return g.genSWR(id) }}}
 	case "C05":
 		return []genClass{{7, func(g *G, id string) *History { return g.genFaithful(id) }}, {2, status}, {1, backends}}
 	case "C20":
